@@ -154,7 +154,7 @@ Fixpoint parse_str (fuel : nat) (l : list ascii) (acc : list ascii) : option (st
         end
       else if (n <? 128)%N then parse_str f r (ch :: acc)
       else
-        match decode_rune (map N_of l) with
+        match decode_rune (map N_of (firstn 4 l)) with
         | None => parse_str f r (rev (bytes_to_ascii (encode_rune 65533)) ++ acc)
         | Some (_, size) =>
           (* copy the whole sequence *)
